@@ -377,8 +377,17 @@ class Peer:
                 return self._bad("bad json")
             if not _valid(body, op.body_schema):
                 return self._bad("bad body")
-            nid = self.next_note
-            self.next_note += 1
+            # ids of sibling notes are decimal prefixes of each other (2, 21, 211, ...): identity must compare whole values
+            if notes:
+                nid = max(notes) * 10 + 1
+                if nid > 9999:
+                    nid = self.next_note
+                    self.next_note += 1
+            else:
+                nid = self.next_note
+                self.next_note += 1
+            while nid in notes:
+                nid += 1
             notes[nid] = {"id": nid, **body}
             return json_response(201, notes[nid], meta={"id": nid})
         raw = args[1] if len(args) > 1 else ""
